@@ -155,6 +155,9 @@ def array_compare(eng, op, a, b):
 def inplace_binop(eng, op, cur, val):
     from .models import check_frame
 
+    if isinstance(cur, S2Arr):
+        return cur.inplace(eng, op, val)
+
     if isinstance(cur, NArr):
         from . import narr
 
@@ -756,3 +759,132 @@ class DLoc:
             self.df.cols[key[1]] = SArr(z3.Store(c.arr, iz, to_z3(val, c.kind)), c.n, c.kind, name=key[1], dtype=c.dtype)
             return
         raise Unsupported("df.loc store form")
+
+
+# ------------------------------------------------ (n x k) arrays, n symbolic
+class S2Arr:
+    """2-D array with a symbolic number of rows and k concrete columns
+    (np.stack([...], axis=1) of 1-D symbolic arrays), possibly transposed."""
+
+    def __init__(self, cols, n, kind="real", transposed=False):
+        self.cols = list(cols)  # z3 arrays Int -> elem
+        self.n = n
+        self.kind = kind
+        self.transposed = transposed
+        from .values import next_uid
+
+        self.uid = next_uid()
+        self.frozen = False
+
+    @property
+    def k(self):
+        return len(self.cols)
+
+    def nz(self):
+        return zint(self.n)
+
+    def __pyvc_snapshot__(self, memo):
+        c = S2Arr(self.cols, self.n, self.kind, self.transposed)
+        c.uid = self.uid
+        return c
+
+    def __pyvc_getattr__(self, eng, name):
+        if name == "T":
+            return S2Arr(self.cols, self.n, self.kind, not self.transposed)
+        if name == "dot":
+            return NativeMethod(lambda e, r, a, k: r.dot(e, a[0]), self, name)
+        if name == "shape":
+            sh = (eng.snum(self.nz(), "int"), self.k)
+            return sh[::-1] if self.transposed else sh
+        if name == "copy":
+            return NativeMethod(lambda e, r, a, k: S2Arr(r.cols, r.n, r.kind, r.transposed), self, name)
+        raise Unsupported(f"2-D symbolic array attribute {name}")
+
+    def dot(self, eng, b):
+        used(eng, "dot-product")
+        if self.transposed or not isinstance(b, NArr) or b.ndim != 2:
+            raise Unsupported("dot form on a symbolic 2-D array")
+        if b.shape[0] != self.k:
+            raise ProgExc(ValueError, f"shapes (n,{self.k}) and {b.shape} not aligned")
+        m = b.shape[1]
+        bit = b.items
+        out = []
+        for j in range(m):
+            out.append(lam(lambda i, _j=j: sum((z3.Select(self.cols[c], i) * to_z3(bit[c * m + _j], "real") for c in range(self.k)), z3.RealVal(0)), "real"))
+        return S2Arr(out, self.n, "real")
+
+    def __pyvc_getitem__(self, eng, idx):
+        from .models import norm_index
+
+        if self.transposed:
+            if isinstance(idx, int):
+                if not -self.k <= idx < self.k:
+                    raise ProgExc(IndexError, "row index")
+                return SArr(self.cols[idx], self.n, self.kind, name="row")
+            raise Unsupported("index form on a transposed symbolic 2-D array")
+        if isinstance(idx, tuple) and len(idx) == 2 and isinstance(idx[1], int):
+            iz = norm_index(eng, idx[0], self.n, "row index")
+            return Sym(z3.Select(self.cols[idx[1]], iz), self.kind)
+        if isinstance(idx, tuple) and len(idx) == 2 and isinstance(idx[0], slice) and idx[0] == slice(None) and isinstance(idx[1], int):
+            return SArr(self.cols[idx[1]], self.n, self.kind, name="col")
+        if isinstance(idx, (int, Sym)):
+            iz = norm_index(eng, idx, self.n, "row index")
+            return NArr((self.k,), [Sym(z3.Select(c, iz), self.kind) for c in self.cols], self.kind)
+        if isinstance(idx, slice):
+            raise Unsupported("row slice of a symbolic 2-D array")
+        raise Unsupported("index form on a symbolic 2-D array")
+
+    def inplace(self, eng, op, val):
+        if self.transposed and isinstance(val, SArr):
+            _len_eq(eng, SArr(self.cols[0], self.n, self.kind), val, "in-place op")
+            if isinstance(op, ast.Div) and not eng.spec_mode:
+                j = z3.Int(fresh_name("dj"))
+                g = z3.simplify(z3.ForAll([j], z3.Implies(z3.And(j >= 0, j < self.nz()), to_z3(val.get(j), "real") != 0)))
+                if not z3.is_true(g):
+                    eng.prove(eng.site("div-nonzero"), g, "safety")
+            self.cols = [lam(lambda i, _c=c: _z3op(op, z3.Select(_c, i), to_z3(val.get(i), "real")), "real") for c in self.cols]
+            return
+        raise Unsupported("in-place op form on a symbolic 2-D array")
+
+
+def stack_sarr(eng, arrs, axis):
+    used(eng, "np.stack")
+    for a in arrs[1:]:
+        _len_eq(eng, arrs[0], a, "np.stack")
+    ks = {a.kind for a in arrs}
+    k = "real" if "real" in ks else arrs[0].kind
+    cols = [a.arr if a.kind == k else lam(lambda i, _a=a: to_z3(_a.get(i), k), k) for a in arrs]
+    if axis == 1:
+        return S2Arr(cols, arrs[0].n, k)
+    if axis == 0:
+        return S2Arr(cols, arrs[0].n, k, transposed=True)
+    raise Unsupported("np.stack axis")
+
+
+class FirstTrue:
+    """np.nonzero(mask)[0] of a symbolic mask: only element 0 is modelled."""
+
+    def __init__(self, mask):
+        self.mask = mask
+
+    def __pyvc_getitem__(self, eng, idx):
+        if idx != 0:
+            raise Unsupported("np.nonzero(...)[0][k] for k != 0")
+        m = self.mask
+        j = z3.Int(fresh_name("j"))
+        if not eng.spec_mode:
+            if not eng.branch(eng.sbool(z3.Exists([j], z3.And(j >= 0, j < m.nz(), m.get(j).z)))):
+                raise ProgExc(IndexError, "index 0 is out of bounds for axis 0 with size 0")
+        return first_true(eng, m)
+
+
+def _np_nonzero(eng, args, kwargs):
+    used(eng, "np.nonzero-positions-in-order")
+    (m,) = args
+    if isinstance(m, SArr):
+        mm = m if m.kind == "bool" else SArr(lam(lambda i: m.get(i).z != 0, "bool"), m.n, "bool")
+        return (FirstTrue(mm),)
+    raise Unsupported("np.nonzero argument")
+
+
+NP_MODELS[np.nonzero] = _np_nonzero
